@@ -7,9 +7,14 @@ Definition idigest := bytes.
 Definition iH (b : bytes) : idigest := b.
 Definition iMeta := bytes.
 Definition imeta0 : iMeta := [].
-Definition ienc (m : iMeta) : bytes := 123%N :: m.
+(* a length-prefixed metadata codec: no encoding splits into two pieces that both decode *)
+Definition ienc (m : iMeta) : bytes := N.of_nat (List.length m) :: m.
 Definition idec (_ : iMeta) (d : bytes) : option iMeta :=
-  match d with 123%N :: r => Some r | _ => None end.
+  match d with
+  | n :: r => if Nat.eqb (List.length r) (N.to_nat n) then Some r else None
+  | [] => None
+  end.
+Definition iscan (_ : bytes) : bool := false.
 
 Fixpoint iprint (l : list (idigest * string)) : bytes :=
   match l with
@@ -73,33 +78,57 @@ Proof. unfold iparse. apply iparse_fuel_print, iprint_length. Qed.
 Lemma iH_inj a b : iH a = iH b -> a = b.
 Proof. exact (fun e => e). Qed.
 Lemma idec_enc m : idec imeta0 (ienc m) = Some m.
-Proof. reflexivity. Qed.
+Proof. unfold idec, ienc. rewrite Nat2N.id, Nat.eqb_refl. reflexivity. Qed.
 Lemma idec_empty m : idec m [] = None.
 Proof. reflexivity. Qed.
 Lemma ienc_nonempty m : ienc m <> [].
 Proof. discriminate. Qed.
 Lemma iparse_empty : iparse [] = [].
 Proof. reflexivity. Qed.
+Lemma idec_pieces (m : iMeta) (a b c : list N) (md md' : iMeta) :
+  a ++ b ++ c = ienc m -> a <> [] -> b <> [] -> idec md a = None \/ idec md' b = None.
+Proof.
+  intros He Ha Hb. left. destruct a as [|n a']; [contradiction|].
+  unfold ienc in He. cbn [app] in He. injection He as Hn Hm.
+  unfold idec. destruct (Nat.eqb (List.length a') (N.to_nat n)) eqn:E; [|reflexivity].
+  exfalso. apply Nat.eqb_eq in E. subst n. rewrite Nat2N.id in E.
+  apply (f_equal (@List.length N)) in Hm. rewrite !app_length in Hm.
+  destruct b; [contradiction|]. cbn [List.length] in Hm. lia.
+Qed.
+Lemma iparse_print_lines ord m s :
+  iparse (iprint (sums_lines iH ienc ord m s)) = map Some (sums_lines iH ienc ord m s).
+Proof. apply iparse_print. Qed.
+Lemma iscan_print ord m s : iscan (iprint (sums_lines iH ienc ord m s)) = false.
+Proof. reflexivity. Qed.
 
 (* The instantiated theorems. *)
-Definition iread := read bytes_eqb iH imeta0 idec iparse.
+Definition iread := read bytes_eqb iH imeta0 idec iparse iscan.
 Definition iwrite := write iH ienc iprint.
 
 Theorem instance_roundtrip ord m s : iread (iwrite ord m s) true = Ok (m, s).
 Proof.
-  exact (roundtrip bytes_eqb iH imeta0 ienc idec iprint iparse bytes_eqb_eq idec_enc
-                   iparse_print ord m s).
+  exact (roundtrip bytes_eqb iH imeta0 ienc idec iprint iparse iscan bytes_eqb_eq idec_enc
+                   iparse_print_lines iscan_print ord m s).
 Qed.
 
 Theorem instance_tamper ord m s L' t' r :
   corrupt (iwrite ord m s) L' t' -> iread L' t' = Ok r -> r = (m, s).
 Proof.
-  exact (tamper bytes_eqb iH imeta0 ienc idec iprint iparse bytes_eqb_eq iH_inj idec_enc
-                idec_empty ienc_nonempty iparse_print iparse_empty ord m s L' t' r).
+  exact (tamper bytes_eqb iH imeta0 ienc idec iprint iparse iscan bytes_eqb_eq iH_inj idec_enc
+                idec_empty iparse_print_lines iparse_empty ord m s L' t' r).
+Qed.
+
+(* every Section hypothesis at once: the strongest theorem (it uses all but [scan_print]) *)
+Theorem instance_accept_sound ord m s L t m' s' :
+  cat n_sums L = iprint (sums_lines iH ienc ord m s) ->
+  iread L t = Ok (m', s') -> m' = m /\ s' = s /\ cat n_state L = s /\ cat n_meta L = ienc m.
+Proof.
+  exact (accept_sound bytes_eqb iH imeta0 ienc idec iprint iparse iscan bytes_eqb_eq iH_inj idec_enc
+                      idec_empty ienc_nonempty idec_pieces iparse_print_lines ord m s L t m' s').
 Qed.
 
 (* A concrete, non-trivial archive: it reads back; flipping a state byte is rejected;
-   dropping state.bin of an empty state is accepted (the known finding). *)
+   dropping state.bin of an empty state is refused (it was accepted before the repair 782406e). *)
 Example ex_roundtrip :
   iread (iwrite true [1; 2; 3]%N [10; 20; 30; 40]%N) true = Ok ([1; 2; 3]%N, [10; 20; 30; 40]%N).
 Proof. vm_compute. reflexivity. Qed.
@@ -116,3 +145,46 @@ Example ex_empty_state_without_member_refused :
           Member n_sums (iprint (sums_lines iH ienc false [1]%N [])) true ] true
   = Err ENotInArchive.
 Proof. vm_compute. reflexivity. Qed.
+
+(* The non-trivial branch of [tamper]: corrupted archives that ARE accepted, with the original
+   extraction.  (1) an empty extra state.bin injected between the members; (2) a second
+   SHA256SUMS with a valid line appended; (3) the members reordered. *)
+Definition ex_m : iMeta := [1; 2; 3]%N.
+Definition ex_s : bytes := [10; 20; 30; 40]%N.
+Definition ex_inj_state : list member :=
+  [ Member n_meta (ienc ex_m) true; Member n_state [] true; Member n_state ex_s true;
+    Member n_sums (iprint (sums_lines iH ienc true ex_m ex_s)) true ].
+Definition ex_inj_sums : list member :=
+  iwrite true ex_m ex_s ++ [Member n_sums (iprint [(iH ex_s, n_state)]) true].
+Definition ex_reordered : list member :=
+  [ Member n_sums (iprint (sums_lines iH ienc true ex_m ex_s)) true;
+    Member n_state ex_s true; Member n_meta (ienc ex_m) true ].
+
+Example ex_corrupt_accepted_inject_state :
+  corrupt (iwrite true ex_m ex_s) ex_inj_state true /\ ex_inj_state <> iwrite true ex_m ex_s /\
+  iread ex_inj_state true = Ok (ex_m, ex_s).
+Proof.
+  split; [|split; [discriminate|vm_compute; reflexivity]].
+  eapply (c_inject _ (Member n_state [] true)).
+  exists [Member n_meta (ienc ex_m) true],
+         [Member n_state ex_s true; Member n_sums (iprint (sums_lines iH ienc true ex_m ex_s)) true].
+  split; reflexivity.
+Qed.
+
+Example ex_corrupt_accepted_inject_sums :
+  corrupt (iwrite true ex_m ex_s) ex_inj_sums true /\ iread ex_inj_sums true = Ok (ex_m, ex_s).
+Proof.
+  split; [|vm_compute; reflexivity].
+  eapply (c_inject _ (Member n_sums (iprint [(iH ex_s, n_state)]) true)).
+  exists (iwrite true ex_m ex_s), []. split; [rewrite app_nil_r; reflexivity|reflexivity].
+Qed.
+
+Example ex_corrupt_accepted_reorder :
+  corrupt (iwrite true ex_m ex_s) ex_reordered true /\ iread ex_reordered true = Ok (ex_m, ex_s).
+Proof.
+  split; [|vm_compute; reflexivity].
+  apply c_reorder. unfold iwrite, write, ex_reordered.
+  eapply Permutation.perm_trans; [apply Permutation.perm_swap|].
+  eapply Permutation.perm_trans; [apply Permutation.perm_skip, Permutation.perm_swap|].
+  eapply Permutation.perm_trans; [apply Permutation.perm_swap|]. apply Permutation.Permutation_refl.
+Qed.
